@@ -19,9 +19,10 @@ CONSTANT Props   \* the properties whose clauses are evaluated, e.g. {"C05"} or 
 Trace == ndJsonDeserialize("trace.ndjson")
 
 VARIABLES l, L, haveL, fees, executed, epoch, bad, drift,
+          echg,     \* the epoch changed in the block being processed
           rejfee    \* the block contains a transaction rejected at authentication that declared a non-zero fee
 
-tvars == <<l, L, haveL, fees, executed, epoch, bad, drift, rejfee>>
+tvars == <<l, L, haveL, fees, executed, epoch, bad, drift, echg, rejfee>>
 
 Relevant == {"begin_chain", "begin", "tx", "end"}
 
@@ -29,7 +30,7 @@ Empty == [supply |-> 0, common |-> 0, lastfees |-> 0, govdep |-> 0, acc |-> <<>>
 
 TraceInit ==
     /\ l = 1 /\ L = Empty /\ haveL = FALSE /\ fees = 0 /\ executed = {} /\ epoch = 0
-    /\ bad = "none" /\ drift = 0 /\ rejfee = FALSE
+    /\ bad = "none" /\ drift = 0 /\ echg = FALSE /\ rejfee = FALSE
 
 Ev == Trace[l]
 Is(e) == l <= Len(Trace) /\ Ev.ev = e /\ l' = l + 1
@@ -46,11 +47,11 @@ SetBad(cs) == bad' = IF bad # "none" THEN bad ELSE FirstBad(cs)
 
 TrSkip ==
     /\ l <= Len(Trace) /\ Ev.ev \notin Relevant /\ l' = l + 1
-    /\ UNCHANGED <<L, haveL, fees, executed, epoch, bad, drift, rejfee>>
+    /\ UNCHANGED <<L, haveL, fees, executed, epoch, bad, drift, echg, rejfee>>
 
 TrChain ==
     /\ Is("begin_chain")
-    /\ L' = Empty /\ haveL' = FALSE /\ fees' = 0 /\ executed' = {} /\ epoch' = 0 /\ rejfee' = FALSE
+    /\ L' = Empty /\ haveL' = FALSE /\ fees' = 0 /\ executed' = {} /\ epoch' = 0 /\ echg' = FALSE /\ rejfee' = FALSE
     /\ UNCHANGED <<bad, drift>>
 
 DebSet(M) == {M.deb[i] : i \in DOMAIN M.deb}
@@ -72,6 +73,7 @@ TrBegin ==
             <<(haveL /\ ~Ev.slashed) => PriceNotFalling(L, M), "C15", "share price fell without slashing">>
           >>)
     /\ rejfee' = FALSE
+    /\ echg' = (haveL /\ Ev.epoch # epoch)
     /\ UNCHANGED <<executed, drift>>
 
 Nonce(M, a) == IF a \in DOMAIN M.acc THEN M.acc[a].n ELSE 0
@@ -136,7 +138,7 @@ TrTx ==
              ELSE 0)
     /\ rejfee' = (rejfee \/ (Ev.env.decodable /\ Ev.env.fee > 0 /\ Ev.code # 0
                               /\ Nonce(Ev.state, Ev.env.signer) = Nonce(L, Ev.env.signer)))
-    /\ UNCHANGED <<haveL, epoch>>
+    /\ UNCHANGED <<haveL, epoch, echg>>
 
 TrEnd ==
     /\ Is("end")
@@ -154,10 +156,12 @@ TrEnd ==
             <<NonNegative(M), "C05", "negative balance at block boundary">>,
             <<M.supply = L.supply, "C05", "supply changed in EndBlock">>,
             \* C15 F6: debonding completes in EndBlock: an entry leaves the queue exactly in the first block whose epoch >= its end
-            <<\A x \in DebSet(M) : x[4] > epoch, "C15", "debonding entry not paid at its end epoch">>,
+            \* (with a debonding interval of 0 an entry created during epoch e ends at e and is due at the NEXT transition)
+            <<\A x \in DebSet(M) : x[4] >= epoch /\ (echg => x[4] > epoch), "C15",
+              "debonding entry not paid at the first epoch transition at or after its end epoch">>,
             <<\A x \in DebSet(L) : StillQueued(x, M) \/ x[4] <= epoch, "C15", "debonding entry paid before its end epoch">>
           >>)
-    /\ UNCHANGED <<haveL, executed, epoch, drift, rejfee>>
+    /\ UNCHANGED <<haveL, executed, epoch, drift, echg, rejfee>>
 
 TraceNext == TrSkip \/ TrChain \/ TrBegin \/ TrTx \/ TrEnd
 TraceSpec == TraceInit /\ [][TraceNext]_tvars
